@@ -246,6 +246,14 @@ class Intervals:
         lv = self.loop_var(op, stack)
         if lv is not None:
             return self.refine_term(op, lv, bb)
+        # success payload of a Result/Option/ControlFlow-typed local:  (x as Ok|Some|Continue).0
+        if len(p['p']) == 2 and p['p'][0]['k'] == 'downcast' and p['p'][0].get('v') in ('Ok', 'Some', 'Continue') and \
+                p['p'][1]['k'] == 'field' and p['p'][1]['i'] == 0:
+            v = self.payload(p['l'], stack)
+            tr = ty_range(p['ty'])
+            if v is not None and tr is not None and tr[0] <= v[0] and v[1] <= tr[1]:
+                return v
+            return tr
         # projection: tuple field of a checked op -> handled in rvalue users; else type range
         if len(p['p']) == 1 and p['p'][0]['k'] == 'field':
             base_defs = self.r.defs.get(p['l'], [])
@@ -265,6 +273,46 @@ class Intervals:
                     return tr
                 return (0, 1)
         return ty_range(p['ty'])
+
+    def payload(self, l, stack=(), depth=0):
+        """range of the success payload carried by a wrapper-typed local (Ok(v) / Some(v) / Continue(v)), following moves and
+        Try::branch; None when unknown.  Failure variants carry no payload and are skipped."""
+        if depth > 6 or ('pay', l) in stack:
+            return None
+        ds = self.r.defs.get(l, [])
+        if not ds or (1 <= l <= self.body.arg_count):
+            return None
+        out = None
+        for proj, kind, pl, bb in ds:
+            if proj:
+                return None
+            v = None
+            if kind == 'rv':
+                if pl['k'] == 'agg' and pl.get('ak') == 'adt' and pl.get('variant') in ('Ok', 'Some', 'Continue') and len(pl.get('ops', [])) == 1:
+                    v = self.operand(pl['ops'][0], stack + (('pay', l),), bb)
+                    if v is None:
+                        return None
+                elif pl['k'] == 'agg' and pl.get('ak') == 'adt' and pl.get('variant') in ('Err', 'None', 'Break'):
+                    continue
+                elif pl['k'] == 'use' and pl['op']['k'] in ('move', 'copy') and not pl['op']['p']['p']:
+                    v = self.payload(pl['op']['p']['l'], stack + (('pay', l),), depth + 1)
+                    if v is None:
+                        return None
+                else:
+                    return None
+            else:
+                fn = pl.get('fn') or {}
+                nm = fn.get('orig', '')
+                if nm.endswith('Try::branch') and len(pl['args']) == 1 and pl['args'][0]['k'] in ('move', 'copy') and not pl['args'][0]['p']['p']:
+                    v = self.payload(pl['args'][0]['p']['l'], stack + (('pay', l),), depth + 1)
+                    if v is None:
+                        return None
+                elif nm.endswith('from_residual'):
+                    continue
+                else:
+                    return None
+            out = join(out, v)
+        return out
 
     def range_of_loopvar(self, term, stack):
         """(lo, hi, start_term, end_term) for a term next(into_iter(Range{start,end}))"""
